@@ -1,5 +1,6 @@
 //! Correspondence harness: runs the litep2p implementation on generated / stored cases and
 //! prints one canonical trace per case in the "list of N" wire format of coq/common/Wire.v.
+mod c01;
 mod c05;
 mod c07;
 mod c15;
@@ -26,6 +27,7 @@ fn main() {
     let args = util::Args::parse(&argv[2..]);
     util::silence_panics();
     match argv[1].as_str() {
+        "c01" => c01::main(&args),
         "c05" => c05::main(&args),
         "c07" => c07::main(&args),
         "c15" => c15::main(&args),
